@@ -408,6 +408,9 @@ pub fn check(hdr: &str, lines: &[String], trace: &[(String, Vec<String>)], mon: 
                                 _ => false,
                             };
                             fail(mon, hdr, "resend_is_earlier_fragment", if splice { "D5" } else { "" }, &format!("op {k}: {}", hex(&x.bytes)));
+                        } else if last_sol_tx.as_ref() != Some(&x.bytes) {
+                            // … namely the fragment that awaits the confirm, octet for octet
+                            fail(mon, hdr, "resend_is_earlier_fragment", "D5", &format!("op {k}: echo is not the fragment awaiting confirmation: {}", hex(&x.bytes)));
                         }
                     }
                 }
@@ -452,7 +455,9 @@ pub fn check(hdr: &str, lines: &[String], trace: &[(String, Vec<String>)], mon: 
                         fail(mon, hdr, "solicited_correlated", "", &format!("op {k}: {} expected seq {:?}", hex(&b[..4]), last_req_seq));
                     }
                 } else if let Some(p) = &last_sol_tx {
-                    if (b[0] & 0x0F) != ((p[0] & 0x0F) + 1) % 16 {
+                    // the echo of a READ repeated during the confirm wait of a later fragment re-sends that fragment
+                    let echo = in_sol_wait && b == p && frag.as_ref().map(|f| Some(&f.2) == last_read_frag.as_ref()).unwrap_or(false) && !has_cb(outs, "cb sol_new_request");
+                    if !echo && (b[0] & 0x0F) != ((p[0] & 0x0F) + 1) % 16 {
                         fail(mon, hdr, "series_consecutive", "", &format!("op {k}"));
                     }
                 }
